@@ -133,3 +133,18 @@ func (l *VerifRecorderLinkService) Done() <-chan struct{} { return l.done }
 func (l *VerifRecorderLinkService) handleIncomingFrame(frame []byte) {
 	l.OnFrame(append([]byte(nil), frame...))
 }
+
+// VerifDrainInternalTransport discards the frames the internal component has
+// queued for the forwarder on a transport that is not attached to a face and
+// returns them.
+func VerifDrainInternalTransport(t *InternalTransport) [][]byte {
+	var out [][]byte
+	for {
+		select {
+		case f := <-t.sendQueue:
+			out = append(out, f)
+		default:
+			return out
+		}
+	}
+}
